@@ -319,7 +319,7 @@ def run_text_case(c):
             for v in c.get("declare", []):
                 spec.declare_var(v, "float")
             for k, val in c.get("constdecl", []):
-                spec.declare_const(k, "float", val)
+                spec.declare_const(k, "float", None if val == "@None" else val)
             spec.spec = c["text"]
             spec.parse()
             out["outcome"] = "ok"
